@@ -9,6 +9,8 @@
 (* of the table value.                                                     *)
 (*   M = [names : Seq(Name), part : Seq(Name), lim : Nat, ngrp : Nat,      *)
 (*        filt : BOOLEAN, summ : BOOLEAN]                                  *)
+(* TraceMeta adds the field dts (the static type family of each visible    *)
+(* column) and the frame rules of DtsAfter below.                          *)
 (***************************************************************************)
 EXTENDS Integers, Sequences, FiniteSets, TLC
 
